@@ -32,6 +32,7 @@ def build(rng, facts, name):
     snap = list(b.vals["k"])
     jobs = b.emit("kobs k")
     qs = [0.0, 1.0, 0.5, rng.random(), rng.random(), nextafter(1.0, False), 5e-324, 0.25, 0.75]
+    jq = []
     for q in qs:
         def chk(a, env, impl, q=q):
             msg = oracle_quantile_weighted(snap, q, env.alpha("k"), env.minidx("k"))(a)
@@ -40,7 +41,8 @@ def build(rng, facts, name):
             y = parse_F(a); mn, mx = parse_F(f["min"]), parse_F(f["max"])
             if not (mn <= y <= mx): return "answer %s lies outside the reported [min, max] = [%s, %s]" % (a, f["min"], f["max"])
             return None
-        b.emit("q k %s" % f2h(q), chk)
+        jq.append(b.emit("q k %s" % f2h(q), chk))
+    b.emit("qs k " + " ".join(f2h(q) for q in qs), lambda a, env, impl: None if a == ",".join(impl[j] for j in jq) else "GetValuesAtQuantiles answered %s where the single queries answer %s" % (a, ",".join(impl[j] for j in jq)))
     return b
 
 def run(tier, seed):
